@@ -14,6 +14,13 @@ pub struct Universe {
     /// the short line list used together with `classes_other`
     pub lines_short: Vec<usize>,
     pub params: Vec<String>,
+    /// frame file names derived from class names of M (outer simple name + .kt / .java): a relation between the
+    /// query and the mapping that independent values never produce
+    pub files_derived: Vec<String>,
+    /// known names with invisible affixes / changed case (different strings!): used for class, method and throwable
+    /// lookups and one frame query each, not crossed with the line universe
+    pub classes_affixed: Vec<String>,
+    pub methods_affixed: Vec<String>,
 }
 
 fn push_unique(v: &mut Vec<String>, s: &str) {
@@ -22,8 +29,27 @@ fn push_unique(v: &mut Vec<String>, s: &str) {
     }
 }
 
+fn affixed(v: &[String], out: &mut Vec<String>) {
+    for n in v.iter().filter(|n| !n.is_empty() && n.len() < 200).take(3) {
+        for cand in [format!("{}\n", n), format!("{}\r\n", n), format!("{} ", n), format!(" {}", n), format!("{}\u{a0}", n), format!("{}\0", n), n.to_uppercase(), n.to_lowercase()] {
+            if !v.contains(&cand) {
+                push_unique(out, &cand);
+            }
+        }
+    }
+}
+
 fn near(v: &[String], out: &mut Vec<String>, unknown: &str) {
     for n in v {
+        // giant names (>= 100 kB): one near miss only
+        if n.len() >= 100_000 {
+            let mut m = n.clone();
+            m.pop();
+            if !v.contains(&m) {
+                push_unique(out, &m);
+            }
+            continue;
+        }
         let plus = format!("{}x", n);
         if !v.contains(&plus) {
             push_unique(out, &plus);
@@ -57,6 +83,8 @@ impl Universe {
         let mut u = Universe { classes, methods, ..Default::default() };
         near(&u.classes, &mut u.classes_other, "zz.Unknown");
         near(&u.methods, &mut u.methods_other, "zzUnknown");
+        affixed(&u.classes, &mut u.classes_affixed);
+        affixed(&u.methods, &mut u.methods_affixed);
         let mut params = params_in;
         // near misses of every argument string (a comparator that only looks at a prefix would confuse them)
         let base: Vec<String> = params.clone();
@@ -101,11 +129,25 @@ impl Universe {
             }
         }
         u.lines = lines.iter().map(|l| *l as usize).collect();
+        if u.classes.iter().chain(u.methods.iter()).any(|n| n.len() >= 100_000) {
+            // giant names: every comparison costs megabytes; keep the boundary lines only
+            u.lines.retain(|l| *l <= 5 || *l == usize::MAX);
+        }
         let mut short: Vec<usize> = vec![0, 1];
         if let Some(c) = consts.iter().find(|c| **c > 1) {
             short.push(*c as usize);
         }
         u.lines_short = short;
+        for (ci, c) in u.classes.iter().filter(|c| c.len() < 200).take(4).enumerate() {
+            let last = c.rsplit('.').next().unwrap_or(c);
+            let outer = last.split('$').next().unwrap_or(last);
+            if !outer.is_empty() {
+                let f = format!("{}{}", outer, [".kt", ".java"][ci % 2]);
+                if !u.files_derived.contains(&f) && u.files_derived.len() < 2 {
+                    u.files_derived.push(f);
+                }
+            }
+        }
         u
     }
 
